@@ -5,7 +5,7 @@ V = os.path.dirname(os.path.dirname(os.path.abspath(__file__)))
 CLAIMED = {
  "C08": dict(
    text="seeded search over histories of insertion requests on one mutable problem table (real builder and synthetic tables) against a piecewise-linear reference model of the original table, plus a monitor on every insert call the real pipeline makes; sampling, not proof",
-   note="trusts numpy.interp as the curve model and the 22-name curve-column list written out in worlds/c08.py; row 0 width exempt; fault set empty (in-memory object)",
+   note="trusts numpy.interp as the curve model and the 24-name curve-column list written out in worlds/c08.py; row 0 width exempt; fault set empty (in-memory object)",
    technique="deterministic simulation: seeded request histories vs piecewise-linear reference model; in-pipeline call monitor; ddmin replay"),
  "C11": dict(
    text="seeded search over interleaved call histories of 1-3 simulated callers in one long-lived process (service calls with dict / model / reused-model inputs, PinchProblem load/target/export), with injected aborts (SimAbort at the n-th library line), natural failures and clock jumps; every completed call is compared byte-for-byte with the same call in a pristine forked process, inputs and earlier results are re-snapshotted, and a fingerprint of all OpenPinch module state is compared before/after; sampling, not proof",
